@@ -98,8 +98,8 @@ class _Async(object):
     def __init__(self, proxy):
         self.proxy = proxy
 
-    def __call__(self, *args, **kwargs):
-        return asyncreq(self.proxy, HANDLE_CALL, args, tuple(kwargs.items()))
+    def __call__(_self, *args, **kwargs):
+        return asyncreq(_self.proxy, HANDLE_CALL, args, tuple(kwargs.items()))
 
     def __repr__(self):
         return "async_(%r)" % (self.proxy,)
@@ -180,9 +180,9 @@ class timed(object):
         self.proxy = async_(proxy)
         self.timeout = timeout
 
-    def __call__(self, *args, **kwargs):
-        res = self.proxy(*args, **kwargs)
-        res.set_expiry(self.timeout)
+    def __call__(_self, *args, **kwargs):
+        res = _self.proxy(*args, **kwargs)
+        res.set_expiry(_self.timeout)
         return res
 
     def __repr__(self):
